@@ -356,7 +356,8 @@ Definition init (lim mg es : Z) : state :=
 
 (* ------------------------------------------------------------------ domain of the accounting theorems:
    a monitor evaluated before a step. Two patterns are excluded:
-   - Release of a cache while one of its creators is inside its loader (the callers of a cache hold
+   - Release of a cache while one of its entries is still loading, i.e. a creator is inside its
+     loader or between loader and save (the callers of a cache hold
      the fraction's use lock; Release comes after they are gone). A lookup STARTED on a released
      cache is not executable at all (step = None: the Go code panics on the nil map).
    - CleanEmptyGenerations dropping a generation to which a save has not yet done its size.Add
@@ -366,13 +367,13 @@ Definition thread_pc (st : state) (t : nat) : option pc :=
 
 Definition pending_to (g : nat) (th : thread) : bool :=
   match tpc th with PAdd g' _ _ => Nat.eqb g' g | _ => false end.
-Definition loading_in (c : nat) (th : thread) : bool :=
-  match tpc th with PLoad _ => Nat.eqb (tcache th) c | _ => false end.
+Definition loading_in (c : nat) (e : entry) : bool :=
+  eattached e && Nat.eqb (ecache e) c && match estat e with ELoading => true | _ => false end.
 
 Definition racy (st : state) (l : label) : bool :=
   match l with
   | LGcGens => existsb (fun g => (gsz g (gens st) =? 0) && existsb (pending_to g) (threads st)) (removelast (listed st))
-  | LRelease c => existsb (loading_in c) (threads st)
+  | LRelease c => existsb (loading_in c) (entries st)
   | _ => false
   end.
 
